@@ -13,9 +13,9 @@ EXPLANATION = (
     "digest(subject(e)) exactly under level < limit (ordering table over level <,=,> limit). C15.5: the predicate filter is "
     "eq(digest(as_predicate(subject(a))), digest(envelope(p))) over assertions(self); the single-result forms over "
     "len in {0,1,2} give {Nonexistent|None, first, Ambiguous}. C15.6: subject()/assertions() return the matched node's fields, "
-    "else self / empty; the case predicates is_<case>, is_subject_<case>, is_obscured and the accessors as_predicate/as_object/Assertion::predicate/object that all other rules treat as opaque have exactly their per-case tables. C15.7: query-family panic sites are in the C16 ledger. Does not decide std collection semantics.")
+    "else self / empty; the case predicates is_<case>, is_subject_<case>, is_obscured and the accessors as_predicate/as_object/Assertion::predicate/object that all other rules treat as opaque have exactly their per-case tables. C15.7: query-family panic sites are in the C16 ledger. C15.2 also judges the level and parent the tree walk hands to each child kind, per valuation of `self is a node` (terms built with edge-sensitive reaching definitions); C15.4 also requires shallow_digests/deep_digests = digests(self, 2 / usize::MAX). Does not decide std collection semantics.")
 TRUSTED = ['Vec::len/is_empty/index, Iterator::filter/collect have std semantics']
-FLOORS = {'C15.1': 7, 'C15.2': 6, 'C15.3': 6, 'C15.4': 2, 'C15.5': 4, 'C15.6': 2}
+FLOORS = {'C15.1': 7, 'C15.2': 11, 'C15.3': 6, 'C15.4': 4, 'C15.5': 4, 'C15.6': 2}
 P1, P2, P3, P4, P5 = [('param', i) for i in range(1, 6)]
 EDGE = {'Node.subject': 'Subject', 'Node.assertions': 'Assertion', 'Assertion.predicate': 'Predicate', 'Assertion.object': 'Object', 'Wrapped.envelope': 'Wrapped'}
 
@@ -190,6 +190,56 @@ def check(ctx):
             ctx.ok('C15.2', ctx.site(tw_, vb), 'tree walk visits an element iff it is not a node')
         else:
             ctx.fail('C15.2', ctx.site(tw_, vb), 'tree walk visitor reachable for node=%s, non-node=%s (expected False/True)' % (t_node, t_other), key='C15.2|table')
+    # ---- C15.2/ctx: level and parent handed to each child of the tree walk, per valuation of "self is a node" (a node is not
+    # visited: its subject keeps the node's level and incoming parent, its assertions sit one level below the subject under the
+    # context returned for the subject; every other element is visited and its children get level+1 and the visitor's result)
+    if len(tvcs) == 1 and (len(atoms) == 1 or len(datoms) == 1):
+        variants_ = adt_variants(F, CASE)
+        nidx = variants_.index('Node')
+        if len(atoms) == 1:
+            envs = [(True, {atoms[0]: True}), (False, {atoms[0]: False})]
+        else:
+            envs = [(True, {datoms[0]: nidx})] + [(False, {datoms[0]: i}) for i in range(len(variants_)) if i != nidx]
+        def plus1(x):
+            return (('binop', 'Add', x, ('int', 1)), ('binop', 'Add', ('int', 1), x))
+        judged = {}
+        for node, env in envs:
+            L = (P2,) if node else plus1(P2)
+            calls = [(bi, [strip_sites(a) for a in args]) for bi, c, args in calls_under(tw_, ttb, env) if c is not None and c.best_hash == tw_.hash]
+            def par_ok(x):
+                if node:
+                    return x == P3
+                if x[0] != 'callv' or x[1] != tv:
+                    return False
+                va = x[2][0] if x[2] and x[2][0][0] == 'tuple' else None
+                vargs = tuple(strip_sites(y) for y in va[1]) if va else ()
+                return len(vargs) == 4 and vargs[0] == P1 and vargs[1] == P2 and vargs[3] == P3
+            for bi, a in calls:
+                k = rec.child_kind(a[0])
+                if k is None or len(a) < 4:
+                    continue
+                if node != k.startswith('Node.'):
+                    continue        # arm of another case: not executed under this valuation
+                if k == 'Node.assertions':
+                    sub = a[2]
+                    sc = callee_of(sub) if sub[0] == 'call' else None
+                    good = a[1] in [y for x in L for y in plus1(x)] and sc is not None and sc.best_hash == tw_.hash \
+                        and rec.child_kind(strip_sites(sub[2][0])) == 'Node.subject'
+                    want = 'level of the subject + 1 and the context returned by the subject\'s walk'
+                else:
+                    good = a[1] in L and par_ok(a[2])
+                    want = ('the node\'s own level and incoming parent' if node else 'level+1 and the visitor\'s result for self')
+                prev = judged.get(k)
+                judged[k] = (prev[0] and good if prev else good, ctx.site(tw_, bi), want, a)
+        for k in rec.CHILD_KINDS:
+            if k not in judged:
+                ctx.fail('C15.2', ctx.site(tw_), 'tree walk: no call into %s found under the valuation where it is executed' % k, key='C15.2|ctxlost|' + k)
+                continue
+            good, site, want, a = judged[k]
+            if good:
+                ctx.ok('C15.2', site, 'tree walk hands %s %s' % (k, want))
+            else:
+                ctx.fail('C15.2', site, 'tree walk hands %s level %s and parent %s (expected %s)' % (k, fmt(a[1]), fmt(a[2]), want), key='C15.2|ctx|' + k)
     # ---------------- C15.3 element count
     ec = F.method1('Envelope', 'elements_count')
     if ec is None:
@@ -223,6 +273,20 @@ def check(ctx):
                 ctx.fail('C15.3', ctx.site(b), 'element count does not add exactly 1 per element (constant part of the sum: %s)' % sorted(sums, key=str), key='C15.3|self')
     # ---------------- C15.4 digests(limit)
     dg = F.method1('Envelope', 'digests')
+    if dg is not None:
+        # the named level sets are the walk-based collector at a fixed limit: deep = no limit, shallow = two levels
+        for name, lim, what in (('deep_digests', lambda n: n is not None and n >= 2 ** 32 - 1, 'usize::MAX'), ('shallow_digests', lambda n: n == 2, '2')):
+            wb = F.method1('Envelope', name)
+            if wb is None:
+                ctx.lost('C15.4', 'Envelope::' + name)
+                continue
+            rt = strip_sites(detry(TermBuilder(F, wb).return_term()))
+            c = callee_of(rt) if rt[0] == 'call' else None
+            if c is not None and c.best_hash == dg.hash and len(rt[2]) == 2 and strip_sites(rt[2][0]) == P1 and lim(const_int(strip_sites(rt[2][1]))):
+                ctx.ok('C15.4', ctx.site(wb), '%s() = digests(self, %s)' % (name, what), sample=fmt(rt))
+            else:
+                ctx.fail('C15.4', ctx.site(wb), '%s() is %s, not the walk-based digests(self, %s): its agreement with the structure is not covered by the digests() rules'
+                         % (name, fmt(rt)[:300], what), key='C15.4|level|' + name)
     if dg is None:
         ctx.lost('C15.4', 'Envelope::digests')
     else:
